@@ -7,6 +7,10 @@ import (
 	"sort"
 
 	"github.com/go-i2p/common/data"
+	"github.com/go-i2p/common/lease_set2"
+	"github.com/go-i2p/common/meta_leaseset"
+	"github.com/go-i2p/common/router_address"
+	"github.com/go-i2p/common/router_info"
 
 	"verifharness/core"
 	"verifharness/gen"
@@ -236,6 +240,187 @@ func runC11(c *core.Ctx) {
 			return
 		}
 		c.Bucket("derived-mapping-left-source-intact")
+	})
+
+	// ---- mappings where they occur in practice: as the options / properties field of a
+	// RouterAddress, RouterInfo, LeaseSet2 or MetaLeaseSet (each container feeds the mapping
+	// parser itself and filters what it reports). (a) the canonical bytes of a Go map placed in
+	// every container parse back, without error, to exactly that map and re-serialise to exactly
+	// those bytes; (b) whatever mapping bytes a container accepts re-serialise to the bytes they
+	// were read from, with and without more data following the container.
+	c.Job("embedded", c.N(4000, 80000), func(i int, r *core.Rand) {
+		canonical := i%2 == 0
+		var g map[string]string
+		var mb []byte
+		class := ""
+		if canonical {
+			for {
+				g, class = genGoMap(r, r.Pick(12))
+				if len(g) <= 900 && mapSize(g) <= 20000 {
+					break
+				}
+			}
+			mb = refEncodeMap(g)
+		} else {
+			switch r.Pick(4) {
+			case 0:
+				mb, _ = gen.MappingWithJunk(r)
+				class = "junk-in-extent"
+			case 1:
+				m := gen.Mapping(r, 8)
+				if len(m.Pairs) > 0 {
+					m.Pairs = append(m.Pairs, m.Pairs[r.Pick(len(m.Pairs))])
+				}
+				mb, class = m.Encode(), "duplicate-key"
+			case 2:
+				m := gen.Mapping(r, 8)
+				mb = m.Encode()
+				if len(mb) > 3 { // one delimiter damaged
+					k := 2 + r.Pick(len(mb)-2)
+					mb[k] ^= byte(1 + r.Pick(255))
+				}
+				class = "damaged-byte"
+			default:
+				m := gen.Mapping(r, 8)
+				mb = m.Encode()
+				class = "unsorted-or-odd"
+			}
+		}
+		extent := 2 + int(binary.BigEndian.Uint16(mb))
+		if extent > len(mb) {
+			return
+		}
+		mb = mb[:extent]
+		raw := rm.Mapping{Raw: mb[2:]}
+		var tail []byte
+		switch r.Pick(4) {
+		case 1:
+			tail = r.Bytes(1 + r.Pick(8))
+		case 2:
+			tail = gen.RouterAddress(r).Encode()
+		case 3:
+			tail = []byte{0}
+		}
+		type ctx struct {
+			site string
+			in   []byte
+			opts func() (data.Mapping, bool) // the mapping as the container exposes it; false when rejected
+		}
+		var ctxs []ctx
+		switch (i / 2) % 5 {
+		case 0:
+			a := gen.RouterAddress(r)
+			a.Options = raw
+			in := append(a.Encode(), tail...)
+			ctxs = append(ctxs, ctx{"router_address.ReadRouterAddress", in, func() (data.Mapping, bool) {
+				ra, _, err := router_address.ReadRouterAddress(in)
+				if err != nil {
+					return data.Mapping{}, false
+				}
+				return ra.Options(), true
+			}})
+		case 1:
+			ri, _ := gen.RouterInfo(r)
+			ri.Options = raw
+			ri.PeerSize, ri.PeerHashes = 0, nil
+			in := append(ri.Encode(), tail...)
+			ctxs = append(ctxs, ctx{"router_info.ReadRouterInfo", in, func() (data.Mapping, bool) {
+				v, _, err := router_info.ReadRouterInfo(in)
+				if err != nil {
+					return data.Mapping{}, false
+				}
+				return v.Options(), true
+			}})
+			if len(ri.Addrs) > 0 {
+				// ... and as the options of an address inside a RouterInfo (always followed by more data)
+				k := r.Pick(len(ri.Addrs))
+				ri2 := ri
+				ri2.Addrs = append([]rm.RouterAddress{}, ri.Addrs...)
+				ri2.Options = gen.SmallMapping(r)
+				ri2.Addrs[k].Options = raw
+				in2 := append(ri2.Encode(), tail...)
+				ctxs = append(ctxs, ctx{"router_info.ReadRouterInfo(address options)", in2, func() (data.Mapping, bool) {
+					v, _, err := router_info.ReadRouterInfo(in2)
+					if err != nil || len(v.RouterAddresses()) <= k {
+						return data.Mapping{}, false
+					}
+					return v.RouterAddresses()[k].Options(), true
+				}})
+			}
+		case 2:
+			l, _ := gen.LeaseSet2(r)
+			l.Options = raw
+			in := append(l.Encode(), tail...)
+			ctxs = append(ctxs, ctx{"lease_set2.ReadLeaseSet2", in, func() (data.Mapping, bool) {
+				v, _, err := lease_set2.ReadLeaseSet2(in)
+				if err != nil {
+					return data.Mapping{}, false
+				}
+				return v.Options(), true
+			}})
+		case 3:
+			l, _ := gen.MetaLeaseSet(r)
+			l.Options = raw
+			in := append(l.Encode(), tail...)
+			ctxs = append(ctxs, ctx{"meta_leaseset.ReadMetaLeaseSet", in, func() (data.Mapping, bool) {
+				v, _, err := meta_leaseset.ReadMetaLeaseSet(in)
+				if err != nil {
+					return data.Mapping{}, false
+				}
+				return v.Options(), true
+			}})
+		default:
+			l, _ := gen.MetaLeaseSet(r)
+			if len(l.Entries) == 0 {
+				l.Entries = []rm.MetaEntry{{}}
+			}
+			k := r.Pick(len(l.Entries))
+			l.Entries = append([]rm.MetaEntry{}, l.Entries...)
+			l.Entries[k].Props = raw
+			in := append(l.Encode(), tail...)
+			ctxs = append(ctxs, ctx{"meta_leaseset.ReadMetaLeaseSet(entry properties)", in, func() (data.Mapping, bool) {
+				v, _, err := meta_leaseset.ReadMetaLeaseSet(in)
+				if err != nil || len(v.Entries()) <= k {
+					return data.Mapping{}, false
+				}
+				e := v.Entries()[k]
+				return e.Properties(), true
+			}})
+		}
+		for _, x := range ctxs {
+			c.Eval(1)
+			sh := gen.Shape{"class": class, "canonical": canonical, "tail": len(tail), "body": len(mb) - 2}
+			var mp data.Mapping
+			var ok bool
+			panicked, _, _ := c.Call(x.site, x.in, func() { mp, ok = x.opts() })
+			if panicked {
+				continue
+			}
+			c.OpResult(x.site, ok)
+			if !ok {
+				if canonical {
+					c.Violate(x.site, "canonical-mapping-rejected-as-embedded-field", sh, x.in, "the canonical encoding of a Go map within the limits is refused in this position")
+				}
+				continue
+			}
+			c.Nontrivial([]byte("embedded"), []byte(x.site), x.in)
+			if ser := mp.Data(); !bytes.Equal(ser, mb) {
+				c.Violate(x.site, "parsed-without-error-but-reserialises-differently", sh, x.in, describeDiff(mb, ser))
+				continue
+			}
+			if canonical {
+				back, err := mp.ToGoMap()
+				same := err == nil && len(back) == len(g)
+				for k, v := range g {
+					if bv, ok := back[k]; !ok || bv != v {
+						same = false
+					}
+				}
+				if !same {
+					c.Violate(x.site, "map-differs-after-round-trip", sh, x.in, fmt.Sprintf("%d pairs in, %d pairs out, %v", len(g), len(back), err))
+				}
+			}
+		}
 	})
 
 	c.Job("parser", c.N(20000, 400000), func(i int, r *core.Rand) {
